@@ -1,24 +1,179 @@
 (* Properties/C20.v — Streamers see an ordered, filtered, duplicate-free view of writes.
-   Only statements, each closed by [exact], each followed by Print Assumptions. *)
+   Only statements, each closed by [exact], each followed by Print Assumptions.
+   The object is the labelled transition system of Cesium/Relay.v: [run (init chans cap) ls st]
+   ranges over ALL interleavings of driver operations (writers of every mode and authority,
+   streamers that subscribe / re-subscribe / pause / close at arbitrary moments, DB close)
+   with the hidden steps of the relay (dequeue-and-deliver, timeout-drop for a consumer that
+   is not ready) and of the streamers (apply a queued request, disconnect), for every channel
+   table and relay capacity. *)
 From stdpp Require Import base list numbers.
-From Coq Require Import NArith List.
-From Synnax Require Import Cesium.Relay Cesium.RelayProofs.
+From Coq Require Import NArith List Sorting.Sorted.
+Import ListNotations.
+From Synnax Require Import Common.Base Cesium.Relay Cesium.RelayProofs Cesium.RelayInv Cesium.RelayThms
+     Cesium.RelayMonitor Monitors.Mon_C20.
 Local Open Scope N_scope.
 
-(* Trace inclusion, direction 1: whatever any interleaving of the LTS (hidden relay /
-   streamer steps between the driver's operations) makes the streamers receive is accepted
-   by the executable checker run on every generated case. *)
+(* (1) Subsequence, order, no duplicates. In every reachable state, what a streamer received
+   is (by tag = writer, sequence number) a subsequence of the frames pushed by writers, in
+   push order; pushed tags are unique and each writer's sequence numbers increase, hence
+   the inbox has no duplicate and every writer's frames arrive in that writer's order. *)
+Theorem C20_subsequence_in_order : forall chans cap ls st s x,
+  run (init chans cap) ls st -> In (s, x) (st_strs st) ->
+  sublist (map itag (s_inbox x)) (map tag (st_hist st)) /\
+  List.NoDup (map tag (st_hist st)) /\
+  (forall w, StronglySorted N.lt (map f_seq (filter (fun f => f_w f =? w) (st_hist st)))) /\
+  List.NoDup (map itag (s_inbox x)) /\
+  (forall w, StronglySorted N.lt (map i_seq (filter (fun i => i_w i =? w) (s_inbox x)))).
+Proof. intros chans cap. exact (inbox_order false false chans cap). Qed.
+Print Assumptions C20_subsequence_in_order.
+
+(* (2a) Only frames written by stream-enabled writers, and only what was relayed of them: every
+   received item is a non-empty part of the relayed keys of a pushed frame of a writer whose
+   mode streams; relayed keys are written keys and none of them is in the unauthorized set
+   computed at the write. *)
+Theorem C20_received_from_streaming_writes : forall chans cap ls st s x it,
+  run (init chans cap) ls st -> In (s, x) (st_strs st) -> In it (s_inbox x) ->
+  exists f wr, In f (st_hist st) /\ tag f = itag it /\
+    i_keys it <> [] /\ incl (i_keys it) (f_keys f) /\ incl (f_keys f) (f_orig f) /\
+    (forall k, In k (i_keys it) -> ~ In k (f_unauth f)) /\
+    alookup (f_w f) (st_writers st) = Some wr /\ streams (w_mode wr) = true.
+Proof. intros chans cap. exact (inbox_items false false chans cap). Qed.
+Print Assumptions C20_received_from_streaming_writes.
+
+(* (2b) Never a series for a channel the writer was not authorized on: the only step that
+   extends the history of pushed frames is a Write of an open, stream-enabled writer, and
+   every key of the pushed frame is a written key that the writer holds, is authorized on
+   at that moment (control state of that very state), and is not held back by the
+   index-group rule. *)
+Theorem C20_pushes_only_authorized_series : forall chans cap ls st l st' f,
+  run (init chans cap) ls st -> lstep st l st' -> st_hist st' = st_hist st ++ [f] ->
+  exists w ks bad wr,
+    l = Vis (Write w ks bad) /\ open_writer_of st w = Some wr /\ streams (w_mode wr) = true /\
+    f_w f = w /\ f_orig f = ks /\
+    forall k, In k (f_keys f) ->
+      In k ks /\ owned wr k = true /\ authorized st w wr k = true /\ excluded st w wr ks k = false.
+Proof. exact reachable_push_authorized. Qed.
+Print Assumptions C20_pushes_only_authorized_series.
+
+(* (2c) For its currently subscribed channels only: in ANY step, from any state, a streamer's
+   inbox stays as it is or grows by exactly one item, namely the head of the relay inlet
+   filtered by the key set the streamer holds in the state the step starts from (its
+   subscription at receive time), and only when that is non-empty. *)
+Theorem C20_filtered_by_current_subscription : forall st l st' s x',
+  lstep st l st' -> In (s, x') (st_strs st') ->
+  s_inbox x' = [] \/
+  exists x, In (s, x) (st_strs st) /\
+    (s_inbox x' = s_inbox x \/
+     exists f q, st_fifo st = f :: q /\ keep f (s_keys x) <> [] /\
+                 s_inbox x' = s_inbox x ++ [Item (f_w f) (f_seq f) (keep f (s_keys x))]).
+Proof. exact receive_filtered. Qed.
+Print Assumptions C20_filtered_by_current_subscription.
+
+Theorem C20_keep_is_the_filter : forall f ks k,
+  In k (keep f ks) -> memN k ks = true /\ In k (f_keys f).
+Proof. exact keep_sub. Qed.
+Print Assumptions C20_keep_is_the_filter.
+
+(* (3) A streamer whose consumer is ready receives all of them: every frame the relay dequeues
+   is handed (filtered by the current key set) to EVERY connected streamer whose consumer is
+   ready — drops exist only for consumers that are not ready — and a frame leaves the relay
+   inlet only by such a delivery or because the database is being closed; otherwise the
+   inlet is unchanged or grows at its tail. *)
+Theorem C20_complete_if_ready : forall st st',
+  In st' (deliver_succs st) ->
+  exists f q, st_fifo st = f :: q /\ st_fifo st' = q /\
+    forall s x, In (s, x) (st_strs st) -> s_conn x = true -> s_ready x = true ->
+                In (s, hand f x) (st_strs st').
+Proof. exact delivery_complete. Qed.
+Print Assumptions C20_complete_if_ready.
+
+Theorem C20_fifo_discipline : forall st l st',
+  lstep st l st' ->
+  st_fifo st' = st_fifo st \/ (exists f, st_fifo st' = st_fifo st ++ [f]) \/
+  (exists f, st_fifo st = f :: st_fifo st' /\
+             (In st' (deliver_succs st) \/ (st_closed st = false /\ st_closed st' = true))).
+Proof. exact fifo_discipline. Qed.
+Print Assumptions C20_fifo_discipline.
+
+(* (4) Writers are never blocked indefinitely — what a model can say about it (PARTIAL: the
+   real clause is about wall-clock time, goroutine scheduling and timers firing; it is
+   observed with a 20 s watchdog on every call of every run of the correspondence).
+   In every reachable state where a Write cannot proceed, the database is open and the
+   relay can deliver, after which that Write can proceed; while the driver waits inside a
+   streamer close, a hidden step is enabled; hidden steps cannot go on forever; every other
+   operation (opening, re-subscribing, pausing, closing streamers, opening/closing writers,
+   changing authority, closing the database) is always enabled. *)
+Theorem C20_no_writer_deadlock_partial : forall chans cap ls st w ks bad,
+  run (init chans cap) ls st -> driver_blocked st = false -> vstep st (Write w ks bad) = [] ->
+  st_closed st = false /\
+  exists st', In st' (deliver_succs st) /\ vstep st' (Write w ks bad) <> [].
+Proof. exact reachable_write_never_deadlocks. Qed.
+Print Assumptions C20_no_writer_deadlock_partial.
+
+Theorem C20_streamer_close_progress_partial : forall chans cap ls st,
+  run (init chans cap) ls st -> driver_blocked st = true -> hsucc st <> [].
+Proof. exact reachable_driver_never_stuck. Qed.
+Print Assumptions C20_streamer_close_progress_partial.
+
+Theorem C20_hidden_steps_terminate : forall st st',
+  In st' (hsucc st) -> (measure st' < measure st)%nat.
+Proof. exact hsucc_measure. Qed.
+Print Assumptions C20_hidden_steps_terminate.
+
+Theorem C20_other_operations_never_block : forall st o,
+  driver_blocked st = false ->
+  match o with Write _ _ _ | Sync => True | _ => vstep st o <> [] end.
+Proof. exact other_ops_never_block. Qed.
+Print Assumptions C20_other_operations_never_block.
+
+(* (5) The tie to the implementation: the executable checker evaluated on every generated
+   case accepts exactly the observations of runs of this LTS. *)
 Theorem C20_every_run_accepted : forall chans cap ls st,
   run (init chans cap) ls st -> driver_blocked st = false ->
   accepts chans cap (visible ls) (observe st) = true.
 Proof. exact accepts_complete. Qed.
 Print Assumptions C20_every_run_accepted.
 
-(* Trace inclusion, direction 2: an accepted observation is produced by some run of the
-   LTS that follows the script, so it enjoys every property proved of reachable states. *)
 Theorem C20_accepted_is_a_run : forall chans cap script obs,
   accepts chans cap script obs = true ->
   exists ls st, run (init chans cap) ls st /\ visible ls = script /\ observe st = obs /\
                 driver_blocked st = false.
 Proof. exact accepts_sound. Qed.
 Print Assumptions C20_accepted_is_a_run.
+
+(* accepted => property, for the clauses the monitor states on the observation alone:
+   no duplicate (kind 2), no reordering within a writer (kind 3) *)
+Theorem C20_accepted_passes_order_monitor : forall chans cap script obs,
+  accepts chans cap script obs = true ->
+  forall s its, In (s, its) obs -> order_kinds its = [].
+Proof. exact accepted_ordered. Qed.
+Print Assumptions C20_accepted_passes_order_monitor.
+
+(* The two behaviours of the pinned upstream tree that the correspondence found and that were
+   repaired by fix: commits in /repo (F60, F61); the model copies the repaired code with both
+   flags off, these witnesses keep the defects on record with the flags on.
+   F60: a writer relayed a series for a channel it never opened. *)
+Theorem C20_unowned_series_refuted :
+  exists st x it, run (init_gen true false wit_chans 8) (map fst unowned_script) st /\
+    In (1, x) (st_strs st) /\ In it (s_inbox x) /\ i_w it = 1 /\ In 3 (i_keys it) /\
+    (exists wr, alookup 1 (st_writers st) = Some wr /\ owned wr 3 = false).
+Proof. exact unowned_refuted. Qed.
+Print Assumptions C20_unowned_series_refuted.
+
+(* F61: after DB.Close a writer blocked forever on the full, dead relay inlet: a reachable
+   state where the Write is disabled and no hidden step exists. *)
+Theorem C20_dead_inlet_refuted :
+  exists st, run (init_gen false true wit_chans 2) (map fst deadinlet_script) st /\
+    st_closed st = true /\ driver_blocked st = false /\
+    vstep st (Write 1 [1] false) = [] /\ hsucc st = [].
+Proof. exact deadinlet_refuted. Qed.
+Print Assumptions C20_dead_inlet_refuted.
+
+(* Non-vacuity: a concrete run with two writers (the second one unauthorized on channel 2),
+   two streamers, a re-subscription applied between two deliveries; its observation is
+   non-trivial and accepted. *)
+Example C20_nonvacuous :
+  exists st, run (init wit_chans 8) (map fst ex_script) st /\ observe st = ex_obs /\
+    driver_blocked st = false /\
+    accepts wit_chans 8 (visible (map fst ex_script)) ex_obs = true.
+Proof. exact ex_nonvacuous. Qed.
